@@ -97,3 +97,36 @@ var w3GuardAllowed = map[string]string{
 var w6SignalAllowed = map[string]string{
 	"pubsub.(*Queue).doAdd/nempty": "empty→non-empty transition signal: one consumer is woken per transition, and every departing waiter re-broadcasts nempty through its context watcher (W2b), so later items reach the remaining consumers",
 }
+
+// B1 exceptions: documented context-less operations, keyed "<func>/<kind>:<chan>".
+var b1Exceptions = map[string]string{
+	"fun.ChanReceive.Ok/recv:ro.ch": "ChanReceive.Ok is documented as a context-less probe of the channel (blocking mode blocks like a plain receive); it is not used by any pipeline",
+	"srv.Cmd$2/recv:started":        "Cmd's Shutdown waits for the `started` barrier, which Run closes on both of its paths before doing anything that can block",
+}
+
+// D1: self-referential types that are deliberately value-copied.
+var d1Excluded = map[string]string{
+	"ers.Stack": "persistent list: nodes are never modified once linked (Push allocates a new tail node), so a copy of the head is a consistent snapshot",
+}
+
+// D3: functions excluded from the link-balance rule.
+var d3Excluded = map[string]string{
+	"dt.(*Item).Detach": "splits one stack into two and recomputes both lengths explicitly (not a splice of one node)",
+}
+
+// D3: functions that legitimately touch `length` more than once.
+var d3MultiAdjust = map[string]bool{
+	"dt.(*Stack).lazyInit": true, // resets length and head together
+	"dt.(*Item).Detach":    true,
+}
+
+// D2b: tabled detaches without the removable() guard.
+var d2bExceptions = map[string]string{
+	"dt.(*Element).Swap/detach(with)": "Swap has its own guard (both non-nil, same non-nil list, distinct); swapping with the root sentinel is documented behaviour",
+	"dt.(*Element).Swap/detach(e)":    "as above",
+}
+
+// D5: functions whose link loads are safe by a documented precondition.
+var d5Exceptions = map[string]string{
+	"pubsub.(*Queue).popFront": "documented precondition 'q is not empty': both callers test tracker.len() / wait for non-empty under the same lock (checked by W-rules and L2)",
+}
